@@ -47,6 +47,8 @@ def run(rep):
         rep.sample({"rows": o["shapes"], "outcome": o["res"]["status"], "message": o["res"].get("message"), "trace_events": len(o["trace"])})
     _rp.run_canaries(rep, PROP, sub, acc)
     part_histories(rep)
+    if rep.tier == "thorough":
+        _rp.suite_part(rep, PROP)
 
 
 def replay(rep, case):
